@@ -114,6 +114,9 @@ def run(ctx, res):
             res.ok("C08:" + rule, inst, st)
     for v in sub.violations:
         res.bad("C08:" + v.rule, v.key, v.msg + " (then `:resume` re-enters an expression whose operands are gone)", v.where, v.data)
+    if ctx.tier == "thorough":
+        from .. import loops as LP
+        LP.run(ctx, res, reach)
     res.explanation = (
         "No-panic inventory over everything the JSON session's worker thread can execute (%d functions), plus "
         "RESPONSE-ONCE as an interval path-count dataflow over handle_request_in_worker's CFG (with callee summaries "
